@@ -1,6 +1,7 @@
 package props
 
 import (
+	"encoding/json"
 	"fmt"
 	"strings"
 	"time"
@@ -113,9 +114,17 @@ func C16(c *Ctx) error {
 		res.Corr("driver", "Lean driver binary missing (model did not build)", nil)
 	}
 	diverges := map[string]bool{}
+	blowsUp := map[string]bool{}     // the unfolded response tree has >= 2^26 assignment blocks
+	unclearWork := map[string]bool{} // between 2^18 and 2^26: no prediction either way
 	for i, s := range shapes {
 		if douts != nil {
 			diverges[s.Shape], _ = douts[i]["mock_diverges"].(bool)
+			w := float64(jsonInt(douts[i]["mock_work"]))
+			if wn, ok := douts[i]["mock_work"].(json.Number); ok {
+				w, _ = wn.Float64()
+			}
+			blowsUp[s.Shape] = w >= float64(uint64(1)<<26)
+			unclearWork[s.Shape] = w >= float64(uint64(1)<<18) && !blowsUp[s.Shape]
 		}
 	}
 	for _, j := range jobs {
@@ -131,10 +140,12 @@ func C16(c *Ctx) error {
 		res.Count("class:" + cls)
 		replay := map[string]any{"schema": j.shape.Req, "shape": j.shape.Shape, "plugin": j.plugin, "parameter": j.param, "class": cls, "exit": j.res.ExitCode, "stderr": firstLines(j.res.Stderr, 6), "wall_ms": j.res.Wall.Milliseconds()}
 		// correspondence: Impl predicts a crash exactly for go-http + generate_mock + divergent response graph
-		predictedCrash := j.plugin == plug.GoHTTP && strings.Contains(j.param, "generate_mock=true") && diverges[j.shape.Shape]
+		mockOn := j.plugin == plug.GoHTTP && strings.Contains(j.param, "generate_mock=true")
+		predictedCrash := mockOn && diverges[j.shape.Shape]
+		predictedBlowUp := mockOn && blowsUp[j.shape.Shape]
 		if douts != nil {
 			implCls := "answer"
-			if predictedCrash {
+			if predictedCrash || predictedBlowUp {
 				implCls = "no-answer"
 			}
 			realCls := "answer"
@@ -142,7 +153,9 @@ func C16(c *Ctx) error {
 				realCls = "no-answer"
 			}
 			// the OpenAPI main panics when protogen cannot build the plugin (known finding); modelled by its own class below
-			if implCls != realCls && !(j.plugin == plug.OpenAPI && shapeKey == "file_without_go_package") {
+			if mockOn && unclearWork[j.shape.Shape] {
+				res.Count("mock_work_between_thresholds")
+			} else if implCls != realCls && !(j.plugin == plug.OpenAPI && shapeKey == "file_without_go_package") {
 				res.Corr("terminates:"+strings.TrimPrefix(j.plugin, "protoc-gen-"), fmt.Sprintf("%s %q on %s: real %s, model predicts %s", j.plugin, j.param, j.shape.Shape, cls, implCls), replay)
 			} else {
 				res.CorrAgree()
@@ -157,6 +170,9 @@ func C16(c *Ctx) error {
 		switch {
 		case predictedCrash:
 			key = "no_answer:go-http:mock_recursive_response"
+			implAgrees = true
+		case predictedBlowUp:
+			key = "no_answer:go-http:mock_exponential_on_shared_types"
 			implAgrees = true
 		case j.plugin == plug.OpenAPI && shapeKey == "file_without_go_package" && cls == "crash":
 			key += ":panic_instead_of_error_answer"
